@@ -172,7 +172,9 @@ def pStmt : Nat → P Stmt
     let t ← tok
     match t with
     | "C" => do let n ← str; let q ← str; pure (.call n q)
-    | "R" => pure .ret
+    | "R" => pure (.ret false)
+    | "N" => pure (.ret true)
+    | "J" => do let s ← pStmt f; let a ← pStmt f; let b ← pStmt f; pure (.try 0 s a b)
     | "T" => Stmt.tail <$> str
     | "G" => Stmt.goto <$> str
     | "K" => pure .skip
@@ -187,6 +189,9 @@ def number : Stmt → Nat → Stmt × Nat
   | .seq a b, n => let (a', n1) := number a n; let (b', n2) := number b n1; (.seq a' b', n2)
   | .ite _ t e, n => let (t', n1) := number t (n + 1); let (e', n2) := number e n1; (.ite n t' e', n2)
   | .scope s, n => let (s', n1) := number s n; (.scope s', n1)
+  | .try _ s t e, n =>
+    let (s', n1) := number s (n + 1); let (t', n2) := number t n1; let (e', n3) := number e n2
+    (.try n s' t' e', n3)
   | s, n => (s, n)
 
 open Rivaas.LifecycleSkel in
